@@ -16,9 +16,12 @@ gvars == <<vars, hist, tag, held>>
 \* WriteAt / Append to p goes through that handle (log field held = TRUE) and closes it.  For the plain
 \* tree this changes nothing - a write is a write; for the implementation the handle carries state taken
 \* when it was opened.  While a handle is kept, the calls that would pull the file from under it are not
-\* generated (Remove, Rename, Trunc, directory rename, Fill).
+\* generated (Remove, Rename, Trunc of that file, renaming or removing its directory, Fill); the same calls on
+\* its SIBLINGS are: what they change in the shared directory must survive the write through the old handle.
 NoHold == held = "none"
 Via(p) == held = p
+\* a call on path q leaves the kept handle's file and the directories above it alone
+Clear(q) == IF NoHold THEN TRUE ELSE (q # held /\ q # Parent[held])      \* IF, not \/ : TLC evaluates both disjuncts
 Offs(p) == {0, 1, 3, 4, 5} \cup {Len(tree[p].data), Len(tree[p].data) + 1}
 Lens == {1, 3, 4, 5}
 Log(r) == hist' = Append(hist, r)
@@ -38,12 +41,12 @@ Next ==
            /\ Len(tree[p].data) + len <= MaxLen
            /\ Go(TRUE, AppendT(p, len, tag)) /\ Log([a |-> "Append", p |-> p, len |-> len, tag |-> tag, held |-> Via(p)])
            /\ tag' = tag + 1 /\ held' = (IF Via(p) THEN "none" ELSE held)
-     \/ \E p \in Files : NoHold /\ CanWrite(p) /\ Len(tree[p].data) > 0 /\ Go(TRUE, TruncT(p)) /\ Log([a |-> "Trunc", p |-> p]) /\ UNCHANGED <<tag, held>>
-     \/ \E p, q \in Files : NoHold /\ p # q /\ Parent[p] = Parent[q] /\ (CanRename(p, q) \/ (Neg /\ p = "A" /\ ~Exists(p)))
+     \/ \E p \in Files : Clear(p) /\ CanWrite(p) /\ Len(tree[p].data) > 0 /\ Go(TRUE, TruncT(p)) /\ Log([a |-> "Trunc", p |-> p]) /\ UNCHANGED <<tag, held>>
+     \/ \E p, q \in Files : Clear(p) /\ Clear(q) /\ p # q /\ Parent[p] = Parent[q] /\ (CanRename(p, q) \/ (Neg /\ p = "A" /\ ~Exists(p)))
            /\ Go(CanRename(p, q), RenameT(p, q)) /\ Log([a |-> "Rename", p |-> p, q |-> q]) /\ UNCHANGED <<tag, held>>
-     \/ \E d, e \in Dirs : NoHold /\ d # e /\ (CanRenameDir(d, e) \/ (Neg /\ Exists(d)))
+     \/ \E d, e \in Dirs : Clear(d) /\ Clear(e) /\ d # e /\ (CanRenameDir(d, e) \/ (Neg /\ Exists(d)))
            /\ Go(CanRenameDir(d, e), RenameDirT(d, e)) /\ Log([a |-> "Rename", p |-> d, q |-> e]) /\ UNCHANGED <<tag, held>>
-     \/ \E p \in Paths : NoHold /\ (CanRemove(p) \/ (Neg /\ (p = "D" \/ p = "A")))
+     \/ \E p \in Paths : Clear(p) /\ (CanRemove(p) \/ (Neg /\ (p = "D" \/ p = "A")))
            /\ Go(CanRemove(p), RemoveT(p)) /\ Log([a |-> "Remove", p |-> p]) /\ UNCHANGED <<tag, held>>
      \/ /\ WithFill /\ NoHold /\ \E p \in Files : IsFile(p) /\ Len(tree[p].data) <= MaxLen
            /\ Go(TRUE, FillT(p, FillCap(p), tag)) /\ Log([a |-> "Fill", p |-> p, tag |-> tag]) /\ tag' = tag + 1 /\ UNCHANGED held
